@@ -164,6 +164,7 @@ R15 = {
 }
 R16 = {
  "C01": "the clone of a codec frame shares no map with the original",
+ "C03": "a fired global timeout is remembered in a flag nothing lowers and doRetry reads it before it opens an attempt (a timeout in the retry window still ends the request)",
  "C04": "every method condition of a route is kept, as the value matcher its configuration asks for",
  "C07": "boltv2: the crc switch of a version 2 frame is tested before the frame is decoded (a trailing CRC32 is never parsed as the next frame)",
  "C08": "boltv2: the crc switch of a version 2 frame is tested before the frame is decoded",
@@ -171,7 +172,7 @@ R16 = {
  "C12": "router updates are serialised by a manager mutex and recorded inside the lock that publishes the routers",
  "C13": "the pool-keying tls hash covers the root certificates themselves, not only their subjects; an sds context without validation config verifies against its static ca_cert, and 'no validation' is decided on the config, never on a secret's name",
  "C14": "doRetry re-reads the response mark after its interval, so a request terminated meanwhile is not sent upstream again; the local reply detaches the upstream stream that is still open and drops a reset flagged meanwhile",
- "C17": "xds: retry_on is converted condition by condition with the retriable status codes; the direct response body is read from every kind of DataSource specifier (exhaustive over the oneof)",
+ "C17": "xds: retry_on is converted condition by condition with the retriable status codes; the direct response body is read from every kind of DataSource specifier (exhaustive over the oneof); a fired global timeout is sticky and stops the retries",
  "C20": "every raw (json.RawMessage) section of the bootstrap config is redacted before the dump (computed from the type)",
 }
 GENERIC = "generic hygiene over the property's packages: no loop-variable address escapes its iteration, every mutex acquired in a function is released on every path to its return and not re-acquired in a callee, a field accessed through sync/atomic is never accessed plainly outside construction (frozen exceptions), storage given back to a pool is not returned or stored, no append onto a loop-invariant slice whose result is kept, no signed remainder of a converted unsigned 64-bit value or of a wrapping signed 32-bit counter, no remainder of a 32-bit sum with an unreduced atomic counter"
